@@ -40,6 +40,17 @@ def _setup():
                 self.raw_stream.append((node, error_code, kw.get("obey_ignore", True), kw.get("replacement")))
             return super().show_error(node, e, error_code, **kw)
 
+    def _apply_changes_to_lines(cls, changes, input_lines):
+        if changes:
+            ch = changes[0]
+            RecordingVisitor.applied = {"del": list(ch.linenos_to_delete),
+                                        "add": None if ch.lines_to_add is None else list(ch.lines_to_add),
+                                        "n_changes": len(changes)}
+        return NameCheckVisitor._apply_changes_to_lines.__func__(cls, changes, input_lines)
+
+    RecordingVisitor.applied = None
+    RecordingVisitor._apply_changes_to_lines = classmethod(_apply_changes_to_lines)
+
     _STATE.update(V=RecordingVisitor, CAC=ClassAttributeChecker, ErrorCode=ErrorCode, DIT=DISABLED_IN_TESTS, CONFIG_PATH=CONFIG_PATH)
     return _STATE
 
@@ -115,6 +126,7 @@ def run_case(text: str, cfg: dict):
                 v = V(mod.__name__, text, tree, module=mod, attribute_checker=ac,
                       add_ignores=bool(cfg.get("add_ignores")), **kwargs)
                 v.raw_stream = raw
+                V.applied = None
                 res = v.check_for_test(apply_changes=apply_changes)
                 new_text = None
                 if apply_changes:
@@ -130,7 +142,7 @@ def run_case(text: str, cfg: dict):
             raw_out.append([idx, getattr(code, "name", None), getattr(node, "lineno", None) or 0,
                             getattr(node, "col_offset", None) or 0, 1 if obey else 0])
         out = [[f["code"].name if "code" in f else None, f.get("lineno") or 0, f.get("col_offset") or 0] for f in res]
-        return {"out": out, "raw": raw_out, "new_text": new_text, "error": None}
+        return {"out": out, "raw": raw_out, "new_text": new_text, "error": None, "applied": V.applied}
     except BaseException as ex:
         import traceback
 
